@@ -25,7 +25,7 @@ BINARY = ["add", "subtract", "multiply", "true_divide", "floor_divide", "remaind
 ALIGN = ["identical", "coincident", "nested", "interleaved", "constA", "constB", "independent"]
 REDS = ["sum", "any", "all", "max", "mean", "np.sum", "np.any", "np.all", "np.mean"]
 KINDS = ["unary", "rl", "rl_derived", "inplace", "pyscalar", "npscalar", "reduce", "concat", "hist"]
-FLOOR_TAGS = ["k:" + k for k in KINDS] + ["align:" + a for a in ALIGN] + ["side:L", "side:R", "kind:b", "kind:i", "kind:u", "kind:f", "noncommutative"] + ["red:" + r for r in REDS] + ["via:cmp-mixed", "k:chain", "step:binary", "step:slice", "step:mask", "step:concat", "step:astype", "step:scalar", "step:unary"]
+FLOOR_TAGS = ["k:" + k for k in KINDS] + ["align:" + a for a in ALIGN] + ["side:L", "side:R", "kind:b", "kind:i", "kind:u", "kind:f", "noncommutative"] + ["red:" + r for r in REDS] + ["via:cmp-mixed", "k:loop", "k:chain", "step:binary", "step:slice", "step:mask", "step:concat", "step:astype", "step:scalar", "step:unary"]
 FLOOR_MONITORS = ["c16:compare", "c16:operands-unchanged", "c16:canonical", "inv:rla"]
 FP_STRICT = True       # a floating-point event inside the library that the dense computation does not have is a violation (shard.FpMonitor)
 N_RANDOM = {"quick": 36000, "thorough": 400000}
@@ -367,6 +367,8 @@ def directed():
     rng = random.Random(1616)
     for c in _chains():
         yield c
+    for k_ in range(12):
+        yield {"kind": "loop", "dtype": ["int64", "float64", "uint8"][k_ % 3], "vals": [3, 3, 5, 5, 5, 1, 8, 8, 2, 2][: 6 + k_ % 5], "uf": ["subtract", "less", "add", "maximum"][k_ % 4], "side": "LR"[k_ % 2], "n": 40, "rseed": k_}
     for dtype in gen.DT_ALL:
         for kind in KINDS:
             for _ in range(4):
@@ -457,6 +459,9 @@ def _with_swap(rng, c):
 
 
 def random_case(rng, tier):
+    if rng.random() < 0.02:
+        v, _ = rl.gen_runs(rng, "int64", "small", 12, length=rng.randint(4, 12))
+        return {"kind": "loop", "dtype": rng.choice(["int64", "float64", "int32"]), "vals": v.tolist(), "uf": rng.choice(["subtract", "add", "less", "maximum", "multiply"]), "side": rng.choice("LR"), "n": 25, "rseed": rng.randrange(10 ** 6)}
     if rng.random() < 0.08:
         from .. import rlprog
         return rlprog.gen_chain(rng, tier)
@@ -473,10 +478,52 @@ def random_case(rng, tier):
 _run_plain = run
 
 
+def run_loop(case):
+    """one long-lived operand combined, one after the other, with many short-lived operands whose run boundaries all differ
+    (each temporary is dropped before the next is made, so object ids are reused): anything remembered per operand identity goes stale"""
+    import gc
+    RLA = CTX.lib.RunLengthArray
+    dt = np.dtype(case["dtype"])
+    v = np.array(case["vals"]).astype(dt)
+    left = RLA.from_array(v.copy())
+    uf = getattr(np, case["uf"])
+    tags = ["k:loop", "kind:" + dt.kind, "uf:" + case["uf"], "side:" + case["side"]]
+    L = len(v)
+    import random as _random
+    rr = _random.Random(case["rseed"])
+    for it in range(case["n"]):
+        cuts = sorted(rr.sample(range(1, L), min(L - 1, rr.randint(1, 4)))) if L > 1 else []
+        w = np.zeros(L, dtype=dt)
+        for k_, c_ in enumerate([0] + cuts):
+            w[c_:] = (k_ * 3 + it) % 7 + 1
+        o = attempt(uf, v, w) if case["side"] == "R" else attempt(uf, w, v)
+        if not o.ok:
+            continue
+        CTX.tick("c16:compare")
+        tmp = RLA.from_array(w.copy())
+        a = attempt(uf, left, tmp) if case["side"] == "R" else attempt(uf, tmp, left)
+        del tmp
+        if it % 13 == 0:
+            gc.collect()
+        if not a.ok:
+            return violated("iteration %d of a loop combining one run-length array with fresh partners: %s raised %r" % (it, case["uf"], a), tags)
+        d = attempt(lambda: np.asarray(a.value.to_array()))
+        if not d.ok or not same_array(d.value, np.asarray(o.value), dtype=True):
+            return violated("iteration %d of a loop %s(%s, fresh partner %s): decodes to %s, numpy gives %s" % (it, case["uf"], short(v, 80), short(w, 80), repr(d) if not d.ok else short(d.value, 120), short(o.value, 120)), tags + ["loop-diverged"])
+        c = rl.canonical(a.value, joined=True)
+        if c:
+            return violated("iteration %d of a loop: result not canonical: %s" % (it, c), tags + ["not-canonical"])
+    if not same_array(np.asarray(left.to_array()), v, dtype=True):
+        return violated("the long-lived operand changed during the loop", tags + ["operand-mutated"])
+    return held(tags, L >= 2)
+
+
 def run(case):   # noqa: F811  -- adds reductions of *derived* encodings (which may carry equal adjacent runs) and chains of operations
     if case["kind"] == "chain":
         from .. import rlprog
         return rlprog.run_chain(case)
+    if case["kind"] == "loop":
+        return run_loop(case)
     if case["kind"] != "reduce2":
         return _run_plain(case)
     RLA = CTX.lib.RunLengthArray
